@@ -4,6 +4,7 @@
 #include "fiber_barrier.h"
 
 #include "fiber_manager.h"
+#include "fiber_verif.h"
 
 int fiber_barrier_init(fiber_barrier_t* barrier, uint32_t count) {
   assert(barrier);
@@ -35,6 +36,7 @@ int fiber_barrier_wait(fiber_barrier_t* barrier) {
   mpsc_fifo_t* const waiters =
       &barrier->waiters[((new_value - 1) / barrier->count) & 1];
   if (new_value % barrier->count == 0) {
+    FIBER_VERIF_POINT(FV_BARRIER_LAST, barrier, 0);
     fiber_manager_wake_from_mpsc_queue(fiber_manager_get(), waiters,
                                        barrier->count - 1);
     return FIBER_BARRIER_SERIAL_FIBER;
